@@ -1,4 +1,9 @@
 package main
 
-// genExtra is extended by later generators (constants, tables, layouts, IR, ...).
-func genExtra(repo string) map[string]string { return map[string]string{} }
+// genExtra collects the generators beyond the registration list.
+func genExtra(repo string) map[string]string {
+	return map[string]string{
+		"Gen_consts.v":     genConsts(),
+		"Gen_des_tables.v": genDesTables(),
+	}
+}
